@@ -10,6 +10,7 @@ def W_MERGE : Nat := Gen.DATA_SIZE
 def runCase (c : Case) : List String :=
   match c.kind with
   | "wig" => wigCase c
+  | "wigbytes" => wigBytesCase c
   | "bed" => bedCase c
   | "wigops" | "bedops" => opsCase c
   | "pyvalues" => pyValues c
